@@ -30,31 +30,36 @@ UNITS = [Unit('out.gzip.write_gzip', (G + 'write_gzip', None), contract=WG_C, pr
               args=['&obj', 'a_in', 'a_act'], props=['C14'], timeout=600,
               post='  if (g_exc != 0) { CANARY("failure reachable"); }',
               note='one deflate step: every byte the compressor produced is forwarded to the inner writer exactly once, from the start of the scratch '
-                   'buffer; scratch size in_size + in_size/3 + 128 <= 1 MiB for chunks <= 512 KiB (larger chunks: known finding, the VLA grows with the chunk)')]
-
-UNITS.append(Unit('out.gzip.write_gzip.anysize', (G + 'write_gzip', None), contract=WG_C.replace('__CPROVER_requires($1 <= (1UL << 19))\n', ''), prelude=P,
-                  opaque=OPQ, ghost=GH, stubs=['lib_deflate', 'BaseCborOutputWriter__write'], setup=SETUP + '  unsigned long a_in; int a_act;\n',
-                  args=['&obj', 'a_in', 'a_act'], props=['C14'], timeout=600, post='  if (g_exc != 0) { CANARY("failure reachable"); }',
-                  note='as out.gzip.write_gzip without the chunk-size bound: the scratch VLA is not bounded (known finding)'))
+                   'buffer; scratch size in_size + in_size/3 + 128 <= 1 MiB for chunks <= 512 KiB (callers pass slices <= 512 KiB: precondition discharged at every call site)')]
 
 # ---------------------------------------------------------------- write(p, size): loop until all input is consumed
 W_C = '''
 __CPROVER_requires(__CPROVER_w_ok($this, sizeof(*$this)) && g_exc == 0 && g_z_open && !g_fwd_bad)
-__CPROVER_requires(g_fwd == g_z_out)
-__CPROVER_requires($2 <= (1UL << 19) && __CPROVER_r_ok($1, $2))
+__CPROVER_requires(g_fwd == g_z_out && g_z_in < (1UL << 60) && $this->m_gzip.avail_in == 0)
+__CPROVER_requires($2 <= (1UL << 50) && __CPROVER_r_ok($1, $2))
 __CPROVER_assigns(''' + ZASSIGN + ''', @BINDSX)
 __CPROVER_ensures(g_exc == 0 || g_exc == EXC_CborOutputException)
-__CPROVER_ensures(g_exc == 0 ==> ($this->m_gzip.avail_in == 0 && g_z_in == @ZI0 + $2 && g_fwd == g_z_out && !g_fwd_bad))
+__CPROVER_ensures(g_exc == 0 ==> ($this->m_gzip.avail_in == 0 && g_z_in == @ZI0 + @N0 && g_fwd == g_z_out && !g_fwd_bad))
 '''
+# loop 1: slices of the input; loop 2: deflate steps of one slice.  locals: $L1 max_slice, $L2 slice
 W_LOOP = '''
+  __CPROVER_assigns($1, $2, ''' + ZASSIGN + ''', @BINDS)
+  __CPROVER_loop_invariant(g_exc == 0 && g_z_open && !g_fwd_bad && g_fwd == g_z_out && $L1 == 524288)
+  __CPROVER_loop_invariant($2 <= @N0 && g_z_in == @ZI0 + (@N0 - $2) && ($2 == @N0 || $this->m_gzip.avail_in == 0))
+  __CPROVER_loop_invariant(__CPROVER_same_object($1, @P0) && __CPROVER_POINTER_OFFSET($1) == __CPROVER_POINTER_OFFSET(@P0) + (@N0 - $2))
+  __CPROVER_decreases($2)
+'''
+W_LOOP2 = '''
   __CPROVER_assigns(''' + ZASSIGN + ''', @BINDS)
-  __CPROVER_loop_invariant(g_exc == 0 && g_z_open && !g_fwd_bad && g_fwd == g_z_out && $this->m_gzip.avail_in <= $2)
-  __CPROVER_loop_invariant(g_z_in + $this->m_gzip.avail_in == @ZI0 + $2)
+  __CPROVER_loop_invariant(g_exc == 0 && g_z_open && !g_fwd_bad && g_fwd == g_z_out && $this->m_gzip.avail_in <= $L2 && $L2 <= 524288 && $L2 <= $2 && $L2 > 0)
+  __CPROVER_loop_invariant(g_z_in + $this->m_gzip.avail_in == @ZI0 + (@N0 - $2) + $L2)
   __CPROVER_decreases($this->m_gzip.avail_in)
 '''
-UNITS.append(Unit('out.gzip.write', (G + 'write', None), contract=W_C.replace(', @BINDSX', ''), loops={1: W_LOOP}, prelude=P, opaque=OPQ,
-                  ghost=[('unsigned long', 'ZI0', 'g_z_in')], replace=['out.gzip.write_gzip'], stubs=['lib_deflate', 'BaseCborOutputWriter__write'],
-                  setup=SETUP + '  unsigned long a_n; __CPROVER_assume(a_n <= (1UL << 19));\n  static char data[1 << 19];\n',
+WGH = [('unsigned long', 'ZI0', 'g_z_in'), ('unsigned long', 'N0', '$2'), ('char *', 'P0', '$1')]
+WSET = '  unsigned long a_n; __CPROVER_assume(a_n <= (1UL << 50));\n  char *data = malloc(a_n);\n  __CPROVER_assume(g_z_in < (1UL << 60) && obj.AVAIL == 0);\n'
+UNITS.append(Unit('out.gzip.write', (G + 'write', None), contract=W_C.replace(', @BINDSX', ''), loops={1: W_LOOP, 2: W_LOOP2}, prelude=P, opaque=OPQ,
+                  ghost=WGH, replace=['out.gzip.write_gzip'], stubs=['lib_deflate', 'BaseCborOutputWriter__write'],
+                  setup=SETUP + WSET.replace('AVAIL', 'm_gzip.avail_in'),
                   args=['&obj', 'data', 'a_n'], props=['C14'], timeout=600, post='  if (g_exc != 0) { CANARY("failure reachable"); }',
                   note='every input byte is offered to deflate exactly once (avail_in == 0 on return, consumed == size), everything produced is '
                        'forwarded; termination under the assumed progress of deflate (A10)'))
@@ -168,7 +173,7 @@ TRUSTED_BASE = ['A10 zlib deflate/deflateInit2/deflateEnd per the zlib manual (c
                 'A11 std::ofstream / std::rename / ::write / fstat as ghost event automata with nondeterministic failures; POSIX rename atomicity',
                 'A1 inner writer (virtual BaseCborOutputWriter) accepts p[0..n) in order; boost::any as a tagged union',
                 'VLA stack use is modelled only as the obligation "<= 1 MiB per call"', 'cdns2c lowering; CBMC 6.11 dfcc; cadical']
-ASSUMPTIONS = ['chunks <= 512 KiB in the gzip units that are counted as discharged', 'file paths are abstracted (suffix .part/.gz not checked)']
+ASSUMPTIONS = ['chunks < 2^50 bytes', 'file paths are abstracted (suffix .part/.gz not checked)']
 
 # ---------------------------------------------------------------- XZ twins (same contracts, lzma_stream fields)
 def xz(text):
@@ -183,9 +188,9 @@ UNITS.append(Unit('out.xz.write_lzma', (X + 'write_lzma', None), contract=xz(WG_
                   stubs=['lib_lzma_code', 'BaseCborOutputWriter__write'], setup=XSETUP + '  unsigned long a_in; int a_act;\n  __CPROVER_assume(a_in <= (1UL << 19));\n',
                   args=['&obj', 'a_in', 'a_act'], props=['C14'], timeout=600, post='  if (g_exc != 0) { CANARY("failure reachable"); }',
                   note='one lzma_code step: as out.gzip.write_gzip'))
-UNITS.append(Unit('out.xz.write', (X + 'write', None), contract=xz(W_C).replace(', @BINDSX', ''), loops={1: xz(W_LOOP)}, prelude=P, opaque=XOPQ,
-                  ghost=[('unsigned long', 'ZI0', 'g_z_in')], replace=['out.xz.write_lzma'], stubs=['lib_lzma_code', 'BaseCborOutputWriter__write'],
-                  setup=XSETUP + '  unsigned long a_n; __CPROVER_assume(a_n <= (1UL << 19));\n  static char data[1 << 19];\n',
+UNITS.append(Unit('out.xz.write', (X + 'write', None), contract=xz(W_C).replace(', @BINDSX', ''), loops={1: xz(W_LOOP), 2: xz(W_LOOP2)}, prelude=P, opaque=XOPQ,
+                  ghost=WGH, replace=['out.xz.write_lzma'], stubs=['lib_lzma_code', 'BaseCborOutputWriter__write'],
+                  setup=XSETUP + WSET.replace('AVAIL', 'm_lzma.avail_in'),
                   args=['&obj', 'data', 'a_n'], props=['C14'], timeout=600, post='  if (g_exc != 0) { CANARY("failure reachable"); }',
                   note='as out.gzip.write'))
 UNITS.append(Unit('out.xz.close', (X + 'close', None), contract=xz(CL_C).replace(', @BINDSX', ''), loops={1: xz(CL_LOOP)}, prelude=P, opaque=XOPQ,
